@@ -70,8 +70,8 @@ def failsafeOutChain (c : Config) (raw : Bool) : List Rule :=
 def ipsetAllHosts := "cali40all-hosts-net"
 def ipsetVXLAN := "cali40all-vxlan-net"
 
-/-- `filterInputChain(4)` (wireguard and kube-ipvs support off). -/
-def filterInputChain (c : Config) : List Rule :=
+/-- the tunnel-source filter at the top of `filterInputChain`. -/
+def inputTunnelRules (c : Config) : List Rule :=
   (if c.ipip then
     [{ comment := some "Allow IPIP packets from Calico hosts",
        crits := [.protoNum 4, .srcSet ipsetAllHosts, .dstLocal], action := c.filterAllow },
@@ -83,26 +83,39 @@ def filterInputChain (c : Config) : List Rule :=
        crits := [.protoNum 17, .dports c.vxlanPort, .srcSet ipsetVXLAN, .dstLocal], action := c.filterAllow },
      { comment := some "Drop IPv4 VXLAN packets from non-allowed hosts",
        crits := [.protoNum 17, .dports c.vxlanPort, .dstLocal], action := .drop }]
-   else []) ++
-  c.prefixes.map (fun pfx => ({ crits := [.inIf (pfx ++ "+")], action := .goto chWlToHost } : Rule)) ++
+   else [])
+
+def inputPrefixRule (pfx : String) : Rule := { crits := [.inIf (pfx ++ "+")], action := .goto chWlToHost }
+
+def inputTail (c : Config) : List Rule :=
   [{ crits := [.markSet markAccept], action := c.filterAllow },
    { action := .clearMark markAll },
    { action := .jump chFromHep },
    { comment := some "Host endpoint policy accepted packet.", crits := [.markSet markAccept], action := c.filterAllow }]
+
+/-- `filterInputChain(4)` (wireguard and kube-ipvs support off). -/
+def filterInputChain (c : Config) : List Rule :=
+  inputTunnelRules c ++ (c.prefixes.map inputPrefixRule ++ inputTail c)
 
 /-- `filterWorkloadToHostChain(4)` (OpenStack special cases off). -/
 def wlToHostChain (c : Config) : List Rule :=
   [{ action := .jump chFromWlDispatch },
    { comment := some "Configured DefaultEndpointToHostAction", action := c.toHost }]
 
+def fwdInRule (pfx : String) : Rule := { crits := [.inIf (pfx ++ "+")], action := .jump chFromWlDispatch }
+def fwdOutRule (pfx : String) : Rule := { crits := [.outIf (pfx ++ "+")], action := .jump chToWlDispatch }
+
+def fwdPrefixRules : List String → List Rule
+  | [] => []
+  | pfx :: ps => fwdInRule pfx :: fwdOutRule pfx :: fwdPrefixRules ps
+
+def fwdTail : List Rule := [{ action := .jump chToHepFwd }, { action := .jump chCidrBlock }]
+
 /-- `StaticFilterForwardChains(4)` (no nft flow offload). -/
 def filterForwardChain (c : Config) : List Rule :=
-  [{ action := .clearMark (markAll - markAccept) },
-   { crits := [.markClear markAccept], action := .jump chFromHepFwd }] ++
-  (c.prefixes.map (fun pfx =>
-    [({ crits := [.inIf (pfx ++ "+")], action := .jump chFromWlDispatch } : Rule),
-     { crits := [.outIf (pfx ++ "+")], action := .jump chToWlDispatch }])).flatten ++
-  [{ action := .jump chToHepFwd }, { action := .jump chCidrBlock }]
+  { action := .clearMark (markAll - markAccept) } ::
+  { crits := [.markClear markAccept], action := .jump chFromHepFwd } ::
+  (fwdPrefixRules c.prefixes ++ fwdTail)
 
 /-- a tier as the host endpoint chain sees it: policies by chain name, staged ones are skipped. -/
 structure Tier where
